@@ -7,6 +7,7 @@ import (
 	"sort"
 	"strconv"
 	"strings"
+	"sync"
 	"time"
 
 	"golang.org/x/exp/rand"
@@ -19,6 +20,9 @@ func getSource() *rand.PCGSource {
 }
 
 var randSource = getSource()
+
+// randSourceMu 保护全局随机源: 未设置seed的多个VM会在不同协程中共用它
+var randSourceMu sync.Mutex
 
 func _roll32(src *rand.PCGSource, dicePoints int) int {
 	// 注: int的长度至少为32位，也可以高于此数，此处只是当作32位处理
@@ -76,6 +80,8 @@ func Roll(src *rand.PCGSource, dicePoints IntType, mod int) IntType {
 	}
 	if src == nil {
 		verifShared("randSource", true)
+		randSourceMu.Lock()
+		defer randSourceMu.Unlock()
 		src = randSource
 	}
 
